@@ -408,21 +408,39 @@ def edit_constant(parameterized):
                 if failure is not None:
                     raise failure
         return
-    # A class: the flags of its Parameters
-    updated = []
+    # A class: the flags of its Parameters. The constants are remembered
+    # by name as well: a Parameter object that the class (an inherited
+    # constant assigned inside the block) or one of its instances gets
+    # while the flags are off is a copy with the flag off, and is locked
+    # with the others when the block is left.
+    cls = parameterized if isinstance(parameterized, type) else type(parameterized)
+    private = cls.__dict__.get('_param__private')
+    updated, names = [], []
+    created = [] if isinstance(private, _ClassPrivate) else None
+    if created is not None:
+        outer, private.unlocking = private.unlocking, (names, created)
     try:
         for pname, pobj in parameterized.param.objects(instance=False).items():
             if pobj.constant:
                 updated.append(pobj)
+                names.append(pname)
                 pobj.constant = False
         yield
     finally:
+        if created is not None:
+            private.unlocking = outer
         # Every flag is put back, also when a watcher of the 'constant'
         # attribute raises on the way
-        failure = None
-        for pobj in updated:
+        current = parameterized.param.objects(instance=False)
+        relock = updated + [current[n] for n in names if n in current] + (created or [])
+        failure, seen = None, set()
+        for pobj in relock:
+            if id(pobj) in seen:
+                continue
+            seen.add(id(pobj))
             try:
-                pobj.constant = True
+                if not pobj.constant:
+                    pobj.constant = True
             except BaseException as e:
                 failure = failure or e
         if failure is not None:
@@ -593,6 +611,12 @@ def _instantiated_parameter(parameterized, param):
         if key not in parameterized._param__private.params:
             pobj = _instantiate_param_obj(param, parameterized)
             parameterized._param__private.params[key] = pobj
+            for klass in type(parameterized).__mro__:
+                # (inside edit_constant(a class of the object): the copy has
+                # the flag off, it is locked again with the class)
+                unlocking = getattr(klass.__dict__.get('_param__private'), 'unlocking', None)
+                if unlocking is not None and key in unlocking[0] and not pobj.constant:
+                    unlocking[1].append(pobj)
             private = parameterized._param__private
             if private.unlocked and (pobj.constant or key in private.unlocked_params):
                 # created inside edit_constant(parameterized): it shows
@@ -5599,6 +5623,7 @@ class _ClassPrivate:
         'initialized',
         'signature',
         'explicit_no_refs',
+        'unlocking',
     ]
 
     def __init__(
@@ -5623,13 +5648,15 @@ class _ClassPrivate:
         self.initialized = False
         self.signature = None
         self.explicit_no_refs = [] if explicit_no_refs is None else explicit_no_refs
+        self.unlocking = None   # inside edit_constant(the class): (names, Parameter objects instances got meanwhile)
 
     def __getstate__(self):
-        return {slot: getattr(self, slot) for slot in self.__slots__}
+        return {slot: getattr(self, slot) for slot in self.__slots__ if slot != 'unlocking'}
 
     def __setstate__(self, state):
         for k, v in state.items():
             setattr(self, k, v)
+        self.unlocking = None
 
 
 class _InstancePrivate:
